@@ -307,6 +307,7 @@ type gAction struct {
 	Op    string          `json:"op"`
 	To    int             `json:"to"`
 	Part  json.RawMessage `json:"part"`
+	Part2 json.RawMessage `json:"part2"`
 	Empty bool            `json:"empty"`
 	Pos   int             `json:"pos"`
 	Srid  int             `json:"srid"`
@@ -488,6 +489,10 @@ func geomopsHandler(raw json.RawMessage) map[string]any {
 			switch a.Op {
 			case "push":
 				errc = errClass(push(o[a.To], getPart(a)))
+			case "push2":
+				a2 := a
+				a2.Part = a.Part2
+				errc = errClass(o[a.To].(*geom.GeometryCollection).Push(getPart(a), getPart(a2)))
 			case "pushbad":
 				errc = errClass(push(o[a.To], badPart(c.K, c.L, a.Empty)))
 			case "reverse":
@@ -529,7 +534,7 @@ func geomopsHandler(raw json.RawMessage) map[string]any {
 				}
 			case "reserve":
 				o[a.To].(reserver).Reserve(len(o[a.To].FlatCoords()) + 16)
-			case "setcoords":
+			case "setcoords", "setbad": // setbad: a value holding coordinates of the wrong length (must be refused)
 				errc = errClass(setCoords(o[a.To], c.K, a.V))
 			case "setlayout":
 				errc = errClass(o[a.To].(*geom.GeometryCollection).SetLayout(layoutOf(a.L)))
